@@ -30,6 +30,13 @@ LkhRandom(count) ==
   { LET n == 6 + (c % 4)
         m == IF c % 3 = 0 THEN LineMat(n, [i \in 1..n |-> Hash(c, i, 0, 10)]) ELSE RandMat(c, n, 10) IN
     LkhCase("rand" \o ToString(c), m, n, Identity(n), IF c % 5 = 0 THEN 3 ELSE 9) : c \in 1..count }
+\* Euclidean stratum: integer grid points, the harness takes the (irrational, floating point) Euclidean distance; every other
+\* case repeats its first point twice more (duplicates = zero-cost edges and exact ties)
+LkhGeo(count) ==
+  { LET n == 5 + (c % 8)
+        raw == [i \in 1..n |-> <<Hash(c, i, 1, 10), Hash(c, i, 2, 10)>>]
+        pts == IF c % 2 = 0 THEN [i \in 1..n |-> IF i > n - 2 THEN raw[1] ELSE raw[i]] ELSE raw IN
+    [kind |-> "lkhgeo", tag |-> "geo" \o ToString(c), n |-> n, pts |-> pts, path |-> Identity(n)] : c \in 1..count }
 \* ---- k-medoids: points are 1..n, the distance is given as a matrix
 GridMat(n, ps) == [i \in 1..n |-> [j \in 1..n |-> (ps[i][1] - ps[j][1]) * (ps[i][1] - ps[j][1]) + (ps[i][2] - ps[j][2]) * (ps[i][2] - ps[j][2])]]
 KmCase(tag, d, n, k) == [kind |-> "km", tag |-> tag, n |-> n, d |-> d, k |-> k]
@@ -46,7 +53,7 @@ KmRandom(count) ==
               d == IF c % 2 = 0 THEN GridMat(n, [i \in 1..n |-> <<Hash(c, i, 1, 6), Hash(c, i, 2, 6)>>]) ELSE RandMat(c, n, 9) IN
           { KmCase("rand" \o ToString(c), d, n, 2 + (c % 4)), HierCase("rand" \o ToString(c), d, n, 1 + (c % 4)) } : c \in 1..count }
 KmValid(c) == c.kind = "hier" \/ c.k <= c.n
-Cases == SetToSeq(LkhExhaustive) \o SetToSeq(LkhRandom(IF Thorough THEN 5000 ELSE 400))
+Cases == SetToSeq(LkhExhaustive) \o SetToSeq(LkhRandom(IF Thorough THEN 5000 ELSE 400)) \o SetToSeq(LkhGeo(IF Thorough THEN 30000 ELSE 3000))
          \o SetToSeq({ c \in KmExhaustive : KmValid(c) }) \o SetToSeq(HierExhaustive) \o SetToSeq(KmRandom(IF Thorough THEN 2000 ELSE 200))
 ASSUME ndJsonSerialize(IOEnv.OUTFILE, Cases)
 ASSUME PrintT("GENERATED " \o ToString(Len(Cases)))
